@@ -380,3 +380,27 @@ func (e *Engine) discharge(vcs []*VC, opts runOpts) {
 	close(ch)
 	wg.Wait()
 }
+
+// parseGoType resolves a small type expression: []T, basic names, path.Name (path relative to the module).
+func (e *Engine) parseGoType(q string) types.Type {
+	if strings.HasPrefix(q, "[]") {
+		el := e.parseGoType(q[2:])
+		if el == nil {
+			return nil
+		}
+		return types.NewSlice(el)
+	}
+	if strings.HasPrefix(q, "*") {
+		el := e.parseGoType(q[1:])
+		if el == nil {
+			return nil
+		}
+		return types.NewPointer(el)
+	}
+	if obj := types.Universe.Lookup(q); obj != nil {
+		if tn, ok := obj.(*types.TypeName); ok {
+			return tn.Type()
+		}
+	}
+	return e.lookupType(q)
+}
